@@ -42,3 +42,58 @@ package expressions
 //@ props C08 C01
 //@ assigns nothing
 //@ ensures one: (result1 == nil) != (result0 == nil)
+
+// ---- evaluators (C08) --------------------------------------------------------------------
+// The grammar actions assemble closures of this type; each returns a non-nil Value or
+// panics with one of the typed panic values that expression.Evaluate turns into errors.
+//@ func functype func(expressions.Context) values.Value
+//@ names ctx
+//@ requires args: ctx != nil
+//@ assigns *
+//@ panics values.TypeError, expressions.InterpreterError, expressions.UndefinedFilter, expressions.FilterError
+//@ ensures nonnil: result != nil
+//@ ensures cells: sameold("P$Fn") && sameold("P$Val")
+//@ func functype expressions.valueFn
+//@ names ctx
+//@ requires args: ctx != nil
+//@ assigns *
+//@ panics values.TypeError, expressions.InterpreterError, expressions.UndefinedFilter, expressions.FilterError
+//@ ensures nonnil: result != nil
+//@ ensures cells: sameold("P$Fn") && sameold("P$Val")
+
+// a[i]: evaluate the sequence, then the index, then one IndexValue step on exactly those
+//@ func expressions.makeIndexExpr$1
+//@ expect func(ctx expressions.Context) values.Value
+//@ implements func(expressions.Context) values.Value
+//@ props C08 C01
+//@ panics values.TypeError, expressions.InterpreterError, expressions.UndefinedFilter, expressions.FilterError
+//@ requires captured: sequenceFn != nil && indexFn != nil
+//@ ghost seq Val = nil
+//@ ghost idx Val = nil
+//@ ghost out Val = nil
+//@ at call sequenceFn #1 before assert first: idx == nil
+//@ at call sequenceFn #1: seq = result
+//@ at call indexFn #1: idx = result
+//@ at call IndexValue #1 before assert operands: this == seq && arg0 == idx
+//@ at call IndexValue #1: out = result
+//@ ensures step: result == out && result != nil
+
+// a.b: one PropertyValue step with the constant name
+//@ func expressions.makeObjectPropertyExpr$1
+//@ expect func(ctx expressions.Context) values.Value
+//@ implements func(expressions.Context) values.Value
+//@ props C08 C01
+//@ panics values.TypeError, expressions.InterpreterError, expressions.UndefinedFilter, expressions.FilterError
+//@ requires captured: objFn != nil && index != nil
+//@ ghost obj Val = nil
+//@ ghost out Val = nil
+//@ at call objFn #1: obj = result
+//@ at call PropertyValue #1 before assert operands: this == obj && arg0 == index
+//@ at call PropertyValue #1: out = result
+//@ ensures step: result == out && result != nil
+
+//@ func expressions.makeObjectPropertyExpr
+//@ props C08 C01
+//@ panics nothing
+//@ requires args: objFn != nil
+//@ ensures nonnil: result != nil
